@@ -199,12 +199,19 @@ def logOps (c : Cfg) (st : State) (s : Step) : List (Sid × String) :=
     | none => []
     | some sv =>
       if sv.role ≠ .follower || Gen.Protocol.replRespEpochCmp.evalNat sv.leaderEpoch epoch then [] else
-      let log := sv.log.setHW hw
+      -- since fix ba85aea the adopted HW is capped at the follower's newest offset, before the
+      -- append and again after it (`Gen.Protocol.followerHwCapped`), exactly as `applyRespStep`
+      let cap := fun (l : CLog) => if Gen.Protocol.followerHwCapped then (if hw < l.newest then hw else l.newest) else hw
+      let log := sv.log.setHW (cap sv.log)
       match recs with
-      | [] => [(me, s!"sethw {hw}")]
+      | [] => [(me, s!"sethw {cap sv.log}")]
       | r :: _ =>
-        if Gen.Protocol.replRespOffsetCmp.evalInt r.offset (log.newest + 1) then [(me, s!"sethw {hw}")]
-        else [(me, s!"sethw {hw}"), (me, "appendset " ++ " ".intercalate (recs.map recTok))]
+        if Gen.Protocol.replRespOffsetCmp.evalInt r.offset (log.newest + 1) then [(me, s!"sethw {cap sv.log}")]
+        else
+          let app := [(me, s!"sethw {cap sv.log}"), (me, "appendset " ++ " ".intercalate (recs.map recTok))]
+          match log.appendSet recs with
+          | .ok (log', _) => if Gen.Protocol.followerHwCapped then app ++ [(me, s!"sethw {cap log'}")] else app
+          | _ => app
   | .commit me =>
     match st.get me with
     | none => []
